@@ -196,7 +196,7 @@ def _r2(repo, L, scope):
                     n_loops += 1
                     ok = any(norm(cj) == seq_txt or (isinstance(cj, ast.Compare) and f"len({seq_txt})" in norm(cj)) for cj in before)
                     L.check(ok, "R2", inst, f"{seq_txt}[{c}] guarded by emptiness test while the loop pops", f"loop pops from {seq_txt} and tests {seq_txt}[{c}] without an emptiness guard: IndexError when the last row is removed", f.loc(w))
-    L.floor("R2", "index-walk loops", n_loops, 4)
+    L.floor("R2", "index-walk loops", n_loops, 2)
 
 
 # ------------------------------------------------------------------------------ R3..R6
